@@ -101,6 +101,9 @@ func headerSchema(kind string) M {
 		return M{"type": "array", "items": M{"type": "integer"}, "maxItems": 2.0}
 	case "string":
 		return M{"type": "string", "minLength": 2.0}
+	case "array-string":
+		// items are separated by commas only: an item may have a space in it
+		return M{"type": "array", "items": M{"type": "string", "maxLength": 8.0}, "maxItems": 2.0}
 	case "object":
 		return M{"type": "object", "properties": M{"limit": M{"type": "integer", "maximum": 10.0}, "left": M{"type": "integer"}}, "required": []any{"limit"}}
 	}
@@ -509,7 +512,7 @@ func gen(t *rapid.T) Case {
 	} else {
 		c.Target = rapid.SampledFrom(append([]string{""}, c.Keys...)).Draw(t, "target")
 	}
-	c.HeaderKind = rapid.SampledFrom([]string{"none", "integer", "array", "string", "object"}).Draw(t, "hkind")
+	c.HeaderKind = rapid.SampledFrom([]string{"none", "integer", "array", "string", "object", "array-string"}).Draw(t, "hkind")
 	c.HeaderExplode = rapid.SampledFrom([]string{"", "true", "false"}).Draw(t, "hexplode")
 	c.HeaderName = rapid.SampledFrom([]string{"", "", "ETag", "X-Request-ID", "x-rate-limit", "X-v"}).Draw(t, "hname")
 	c.HeaderByContent = rapid.IntRange(0, 3).Draw(t, "hbycontent") == 0
@@ -525,6 +528,8 @@ func gen(t *rapid.T) Case {
 			arr[i] = float64(rapid.IntRange(0, 9).Draw(t, "harrv"))
 		}
 		c.HeaderVal = jv.Canon(arr)
+	case "array-string":
+		c.HeaderVal = rapid.SampledFrom([]string{`["new york","paris"]`, `["a b"]`, `["ab","cd"]`, `["ab","cd","ef"]`, `["x y z","w"]`, `["tab\there"]`, `["much too long an item"]`}).Draw(t, "harrs")
 	case "string":
 		c.HeaderVal = jv.Canon(rapid.SampledFrom([]string{"ab", "abc", "x", "hello"}).Draw(t, "hstr"))
 	case "object":
